@@ -48,8 +48,8 @@ def gen_graph(rnd):
         cands = order[i + 1:]
         deps = [c for c in cands if rnd.random() < .5]
         if nm == 'root' and not deps: deps = [cands[0]]
-        if deps: r['depends'] = [({'name': d, 'use': ['result', 'deps']} if rnd.random() < .25 else d) for d in deps]
-        r['packageVars'] = ['LEVEL']; r['environment'] = {'LEVEL': str(i)}
+        if deps: r['depends'] = [({'name': d, 'use': ['result', 'deps']} if rnd.random() < .25 else ({'name': d, 'environment': {'FLAVOR': rnd.choice('xy')}} if rnd.random() < .35 else d)) for d in deps]
+        r['packageVars'] = ['LEVEL', 'FLAVOR']; r['environment'] = {'LEVEL': str(i)}      # FLAVOR comes from the depending package: one name, several variants
         # provided dependencies: whoever names this recipe with `use: [deps]` gets them as INDIRECT dependencies
         plain = [d if isinstance(d, str) else d['name'] for d in r.get('depends', [])]
         if nm != 'root' and plain and rnd.random() < .5: r['provideDeps'] = rnd.sample(plain, rnd.randint(1, len(plain)))
@@ -57,6 +57,7 @@ def gen_graph(rnd):
 
 def gen_pred(rnd, names, depth=0):
     k = rnd.random()
+    if k < .12: return ('cmpf', rnd.choice(['==', '!=']), rnd.choice('xyn'))
     if k < .35: return ('cmp', rnd.choice(['==', '!=']), str(rnd.randint(0, 4)))
     if k < .5: return ('rel', rnd.choice(names + ['*', 'a*']))
     if k < .6: return ('reldesc', rnd.choice(names + ['a*', 'l*']))
@@ -66,6 +67,7 @@ def gen_pred(rnd, names, depth=0):
 
 def render_pred(p):
     if p[0] == 'cmp': return '"${LEVEL}" %s "%s"' % (p[1], p[2])
+    if p[0] == 'cmpf': return '"${FLAVOR:-n}" %s "%s"' % (p[1], p[2])
     if p[0] == 'rel': return p[1]
     if p[0] == 'reldesc': return './/' + p[1]
     if p[0] == 'abs': return '/root/' + '/'.join(p[1]) + ('[%s]' % render_pred(p[2]) if p[2] else '')
@@ -88,6 +90,9 @@ def render_query(steps, rnd):
 def pred_holds(graph, root, n, p):
     if p[0] == 'cmp':
         v = graph[n].get('env', {}).get('LEVEL', '')
+        return (v == p[2]) == (p[1] == '==')
+    if p[0] == 'cmpf':
+        v = graph[n].get('env', {}).get('FLAVOR', 'n')
         return (v == p[2]) == (p[1] == '==')
     if p[0] == 'rel': return any(fnmatch.fnmatchcase(name, p[1]) for name in graph[n]['children'])
     if p[0] == 'reldesc':
